@@ -28,7 +28,7 @@ if __name__ == '__main__':
     sys.path.insert(0, os.path.dirname(os.path.dirname(os.path.abspath(__file__))))
 import common
 
-LEAN_MODULES = ['OpusProps.C04']
+LEAN_MODULES = ['OpusProps.C04', 'OpusModel.Delay', 'OpusModel.Mdct', 'OpusModel.DelayChannels']   # the last three: imports of the interpreted driver Driver/DelayMain.lean
 GEN = ['Window', 'LayoutTables', 'MappingMatrices']   # the last two: C10's extractors (OpusProps.C10 is imported read-only)
 SOURCES = ['src/opus_encoder.c', 'src/opus_decoder.c', 'src/opus_multistream_encoder.c', 'src/opus_multistream_decoder.c',
            'src/opus_projection_encoder.c', 'src/opus_projection_decoder.c', 'src/mapping_matrix.c',
